@@ -9,8 +9,8 @@ namespace Executor
 /-- a host as offered by the host iterator, with what `do` looks at -/
 structure Host where
   id : Nat
-  up : Bool          -- host.IsUp()
-  conn : Bool        -- the pool exists and Pick() returns a connection
+  up : Bool          -- the SelectedHost carries a HostInfo and host.IsUp()
+  conn : Bool        -- the pool exists (`getPool`) and Pick() returns a connection
 deriving DecidableEq, Repr
 
 /-- result of one attempt (`iter.err` classes) -/
